@@ -11,5 +11,4 @@ import McpModel.Paginate.Props
 import McpModel.Negotiate.Props
 -- (Paginate/Negotiate drivers are roots of their own executables; two `main`s cannot be imported together)
 import McpModel.TypedTool.Props
-import McpModel.EventStore.Driver
 import McpModel.Preflight.Props
